@@ -29,6 +29,8 @@ def check(chk, thorough=False):
     chk.run('C10.p', 'R-WHO', 'the route tables are only appended to at run time: a configured route (pattern order, MTU) is never replaced or dropped by discovery', lambda ob: __import__('sa.props.common', fromlist=['route_tables_append_only']).route_tables_append_only(tree, ob), floor=1)
     chk.run('C10.q', 'R-FLOW', 'every reception a CL announces reaches the agent: the adaptors pop exactly the announced transfer and hand it on unconditionally (repeats are judged by bundle identity, in the agent)', lambda ob: __import__('sa.props.c11', fromlist=['adaptor_rx_fidelity']).adaptor_rx_fidelity(tree, ob), floor=2)
     chk.run('C10.r', 'R-ORDER', 'the block index the bundle identity is computed from exists before it is read (built at construction, or asked for by every reader)', lambda ob: c10r(tree, ob), floor=1)
+    chk.run('C10.s', 'R-GUARD', 'the administrative routing step claims a bundle by its destination alone (= C06.p)', lambda ob: admin_route_by_destination_only(tree, ob), floor=1)
+    chk.run('C10.t', 'R-TRUTH', 'destinations, sources and route patterns are compared as written: no case folding in the route configuration or in the endpoint ID field', lambda ob: c10t(tree, ob), floor=1)
     chk.run('C10.e', 'R-WHO', 'actions are recorded only through record_action (two sanctioned direct edits)', lambda ob: c10e(tree, ob), floor=3)
 
 
@@ -346,3 +348,51 @@ def c10r(tree, ob):
             break
     if not [f for f in ob.findings]:
         ob.site(UTIL, fi.func, 'lazy index: every reader asks for it first ({} reads)'.format(n))
+
+
+def admin_route_by_destination_only(tree, ob):
+    ''' whether a bundle is for the administrative element of this node is decided by its destination alone.  Fragments of
+    such a bundle are "for the node" as well: they must be marked for delivery to reach reassembly (which runs behind the
+    routing steps and only looks at bundles to be delivered here). '''
+    ADMIN = 'bp/app/admin.py'
+    fv = FuncView(tree, ADMIN, 'Administrative._rx_route')
+    recs = [c for c in method_calls(fv.func, 'record_action', 'ctr') if c.args and const_str(c.args[0]) == 'deliver']
+    rec = one(recs, "record_action('deliver') in Administrative._rx_route", ob)
+    facts = [(t, p) for (t, p) in (fv.facts(rec) or ()) if not t.startswith('isinstance(')]
+    dest = [(t, p) for (t, p) in facts if 'destination' in t or t.startswith('eid ==') or ' == self._config.node_id' in t]
+    extra = [(t, p) for (t, p) in facts if (t, p) not in dest]
+    if dest and not extra:
+        ob.site(ADMIN, rec, 'a bundle for the node ID is marked for delivery, whole or fragment')
+    elif extra:
+        ob.violate(ADMIN, fv.qual, "record_action('deliver') under {}{}".format('' if extra[0][1] else 'not ', extra[0][0])[:100], 'delivery to the administrative element also depends on something other than the destination '
+                   '(here a test of the bundle itself): fragments addressed to the node are not marked for delivery, never reach reassembly and the bundle is never delivered', rec, sure=True)
+    else:
+        ob.violate(ADMIN, fv.qual, "record_action('deliver')", 'delivery to the administrative element is not conditional on the destination being the node ID', rec)
+
+
+def c10t(tree, ob):
+    ''' "routes by first match" of the destination against the configured patterns, as configured: the patterns are compiled
+    without flags, and the text they are matched against is the endpoint ID as decoded.  Case-folding on either side
+    (IGNORECASE patterns; a "shown form" of the EID field in lower case, which scapy hands out on attribute access) lets
+    dtn://Relay/ take the route of dtn://relay/, look-alike sources count as repeats and a foreign node as this one. '''
+    n = 0
+    for rel in ('bp/config.py', 'bp/agent.py', 'bp/app/admin.py'):
+        for node in ast.walk(tree.module(rel).tree):
+            if isinstance(node, ast.Attribute) and node.attr in ('IGNORECASE', 'I') and src(node.value) == 're':
+                ob.violate(rel, (enclosing(node, (ast.FunctionDef,)) or ast.FunctionDef(name='<module>')).name, src(node), 'route patterns are compiled case-insensitively: a destination that differs in letter case from the one '
+                           'configured takes its route (and can shadow the true first match)', node, sure=True)
+                n += 1
+    FLD = 'bp/encoding/fields.py'
+    cls = tree.klass(FLD, 'EidField')
+    for m in [x for x in cls.body if isinstance(x, ast.FunctionDef)]:
+        for c in calls_in(m):
+            if isinstance(c.func, ast.Attribute) and c.func.attr in ('lower', 'upper', 'casefold', 'title', 'capitalize', 'swapcase'):
+                # the scheme NAME is looked up in lower case by the encoder (TypeCode[scheme.lower()]): that is the table key, not the EID
+                tgt = src(c.func.value)
+                if m.name == 'i2m' and tgt in ('scheme', 'scheme_name'):
+                    continue
+                ob.violate(FLD, 'EidField.' + m.name, src(c)[:60], 'the endpoint ID field changes letter case (here in {}): what routing, the own-source test and the bundle identity see is no longer the '
+                           'EID that arrived'.format(m.name), c, sure=True)
+                n += 1
+    if not n:
+        ob.site(FLD, cls, 'endpoint IDs and route patterns are compared as written (no case folding)')
